@@ -118,7 +118,7 @@ Definition upd_atom_f (a : atom) (field : afield) (v : sx) : atom * bool :=
   | AHetero => (a' (get_bool v) (a_serial a) (a_id a) (a_name a) (a_x a) (a_y a) (a_z a) (a_occ a) (a_b a) (a_elem a) (a_charge a), true)
   | ASerial => (a' (a_hetero a) (get_Z v) (a_id a) (a_name a) (a_x a) (a_y a) (a_z a) (a_occ a) (a_b a) (a_elem a) (a_charge a), true)
   | AId => let s := get_text v in
-            if (valid_text s && negb (is_nil s))%bool
+            if (valid_text s && negb (is_nil (trim s)))%bool
             then (a' (a_hetero a) (a_serial a) (trim s) (a_name a) (a_x a) (a_y a) (a_z a) (a_occ a) (a_b a) (a_elem a) (a_charge a), true) else same
   | AName => let s := get_text v in
               if valid_text s
